@@ -63,7 +63,8 @@ CtorWantOk(e) ==
   CASE e.fn = "Dual::try_new" -> e.nd = 0 \/ e.nd = e.nvars
     [] e.fn = "Dual2::try_new" -> (e.nd = 0 \/ e.nd = e.nvars) /\ (e.n2 = 0 \/ e.n2 = e.nvars * e.nvars)
     [] e.fn = "Ccy::try_new" -> e.nbytes = 3                       \* byte length of the LOWER-CASED code (what is stored)
-    [] e.fn = "FXPair::try_new" -> e.la = 3 /\ e.lb = 3 /\ ~e.same
+    \* (a pair is two DISTINCT three-letter codes, whoever builds it: the pair constructor, the quote constructor, Python's FXRate(...))
+    [] e.fn \in {"FXPair::try_new", "FXRate::try_new", "FXRate.__new__"} -> e.la = 3 /\ e.lb = 3 /\ ~e.same
     [] e.fn = "csolve" -> (e.ntau = e.n \/ (e.lsq /\ e.ntau > e.n)) /\ e.ny = e.ntau
     [] e.fn = "FXRates::try_new" -> e.tree
 CtorVerdict(e) == IF e.o = "panic" THEN "panic"
